@@ -261,6 +261,12 @@ def c_ik_exact(case, ctx):
     top_tm = sps.make_tm(T_bot @ sps.rel_T(model, u), case["top_form"])
     T_top = sps.held(top_tm)
     ctx.label("top: " + case["top_form"])
+    top_omitted = bool(case.get("top_omitted")) and bot_tm is not None
+    if top_omitted:
+        # IK(bottom_plate_pos=B) alone: the top plate is the one the platform has (where it stands now); the pair
+        # asked about is (B, current top)
+        T_top = model.T_top.copy()
+        ctx.label("top: left out (bottom plate given alone)")
     if _near_pi(T_bot, T_top):
         ctx.skip("plate rotation within 2e-5 of a half turn (open C01 finding in the matrix log)")
 
@@ -272,7 +278,10 @@ def c_ik_exact(case, ctx):
     ctx.label("protect" if case["protect"] else "validate")
 
     with time_guard(GUARD_S):
-        ret = sut(sp.IK, top_tm, bot_tm, case["protect"])
+        if top_omitted:
+            ret = sut(sp.IK, bottom_plate_pos=bot_tm, protect=case["protect"])
+        else:
+            ret = sut(sp.IK, top_tm, bot_tm, case["protect"])
     if not (isinstance(ret, tuple) and len(ret) == 2):
         raise Violation("IK returned %r, not (lengths, valid)" % (type(ret),))
     L = _lengths(ret[0], "IK")
@@ -542,6 +551,7 @@ def _ik_cases():
         "bot": st.one_of(st.none(), sps.base_poses()),
         "bot_form": _FORMS, "top_form": _FORMS,
         "protect": st.booleans(),
+        "top_omitted": st.sampled_from([False, False, False, True]),
         "seed": _SEED,
     })
 
